@@ -147,7 +147,23 @@ where
 
     writeln!(writer, "#[derive(Debug, Default, YaSerialize, YaDeserialize)]")?;
     if let Some(tns) = &target_namespace {
-        let namespaces = format!("\"{}\" = \"{}\"", tns.abbreviation, tns.namespace);
+        // declare the struct's own namespace and the namespace of every member that lives in another one
+        // (inherited from a base type or referenced from another schema), so that their prefixes are bound
+        let mut declared = vec![tns];
+        for ns in fields
+            .iter()
+            .filter(|f| !f.is_attribute)
+            .filter_map(|f| f.target_namespace.as_ref())
+        {
+            if !declared.iter().any(|d| d.abbreviation == ns.abbreviation) {
+                declared.push(ns);
+            }
+        }
+        let namespaces = declared
+            .iter()
+            .map(|ns| format!("\"{}\" = \"{}\"", ns.abbreviation, ns.namespace))
+            .collect::<Vec<String>>()
+            .join(", ");
         writeln!(
             writer,
             "#[yaserde(prefix = \"{}\", namespaces = {{{}}}, rename = \"{}\")]",
